@@ -120,6 +120,93 @@ def fcfg_reference(sk, ann):
     return RC.Gram(start, prods)
 
 
+# ---- two-feature agreement family (hand-shaped: a constituent with a re-entrant reading and a concrete reading)
+# skeleton: S -> X Y Z ; X -> x ; X -> W ; W -> x ; Y -> y ; Z -> z      occurrences annotated from small option lists
+A2_OPTS = {
+    "S.X": ["", "[F=?f,G=?g]", "[F=?f,G=?f]"],
+    "S.Y": ["", "[F=?f]", "[F=?g]"],
+    "S.Z": ["", "[G=?g]", "[G=?f]"],
+    "X.head": ["", "[F=?a,G=?a]", "[F=p,G=q]", "[F=p,G=p]"],
+    "W.head": ["", "[F=p,G=q]", "[F=?a,G=?a]", "[F=q,G=q]"],
+    "Y.head": ["", "[F=p]"],
+    "Z.head": ["", "[G=q]", "[G=p]"],
+}
+A2_KEYS = list(A2_OPTS)
+
+
+def agreement2_cases():
+    for combo in product(*[range(len(A2_OPTS[k])) for k in A2_KEYS]):
+        yield ("fcfg2", combo)
+
+
+def agreement2_text(combo):
+    o = {k: A2_OPTS[k][i] for k, i in zip(A2_KEYS, combo)}
+    return "\n".join(["S -> X%s Y%s Z%s" % (o["S.X"], o["S.Y"], o["S.Z"]), "X%s -> x" % o["X.head"], "X -> W",
+                      "W%s -> x" % o["W.head"], "Y%s -> y" % o["Y.head"], "Z%s -> z" % o["Z.head"]])
+
+
+def parse_ann(txt):
+    """'[F=?f, G=q]' -> {feature: ('v', name) | ('c', value)}"""
+    out = {}
+    for part in txt.strip("[]").split(","):
+        if "=" in part:
+            k, v = [x.strip() for x in part.split("=")]
+            out[k] = ("v", v[1:]) if v.startswith("?") else ("c", v)
+    return out
+
+
+def agreement2_reference(combo):
+    o = {k: parse_ann(A2_OPTS[k][i]) for k, i in zip(A2_KEYS, combo)}
+    feats = ("F", "G")
+    rules = [("S", o.get("S.head", {}), [("X", o["S.X"]), ("Y", o["S.Y"]), ("Z", o["S.Z"])]),
+             ("X", o["X.head"], ["x"]), ("X", {}, [("W", {})]), ("W", o["W.head"], ["x"]),
+             ("Y", o["Y.head"], ["y"]), ("Z", o["Z.head"], ["z"])]
+    prods = []
+    for head, hann, body in rules:
+        occs = [(head, hann)] + [b for b in body if not isinstance(b, str)]
+        named = sorted({v[1] for _, ann in occs for v in ann.values() if v[0] == "v"})
+        fresh = [(i, f) for i, (_, ann) in enumerate(occs) for f in feats if f not in ann]
+        for nv in product(("p", "q"), repeat=len(named)):
+            env = dict(zip(named, nv))
+            for fv in product(("p", "q"), repeat=len(fresh)):
+                fenv = dict(zip(fresh, fv))
+
+                def inst(i, sym, ann):
+                    vals = []
+                    for f in feats:
+                        if f in ann:
+                            vals.append(env[ann[f][1]] if ann[f][0] == "v" else ann[f][1])
+                        else:
+                            vals.append(fenv[(i, f)])
+                    return ("V", (sym,) + tuple(vals))
+                h = inst(0, head, hann)
+                b, k = [], 1
+                for x in body:
+                    if isinstance(x, str):
+                        b.append(("T", x))
+                    else:
+                        b.append(inst(k, x[0], x[1]))
+                        k += 1
+                prods.append((h, tuple(b)))
+    start = ("V", "START")
+    prods += [(start, (("V", ("S", a, b)),)) for a in ("p", "q") for b in ("p", "q")]
+    return RC.Gram(start, prods)
+
+
+PROBES = [("node", {"H": ("node", {"F": ("atom", "p", None)})}), ("node", {"H": ("node", {"F": ("atom", "q", None)})}),
+          ("node", {"F": ("atom", "p", None)}), ("node", {"H": ("node", {"G": ("atom", "p", None)}), "G": ("atom", "q", None)}),
+          ("node", {"F": ("atom", None, "s"), "G": ("atom", None, "s")}), ("node", {"H": ("node", {})})]
+SCRIPTS = [((0, 1), (1, 2), (3, 0)), ((0, 1), (2, 0), (1, 3)), ((0, 1), (0, 2), (3, 1))]
+
+
+def seq_cases(mod):
+    n = len(fs_pool())
+    for i in range(n):
+        for j in range(n):
+            if (i * 7 + j) % mod == 0:
+                yield ("fsseq", i, j)
+
+
 def lib_observable(fs, max_depth=4):
     paths, atoms, by_node = set(), {}, {}
     todo = [((), fs.get_dereferenced())]
@@ -176,14 +263,22 @@ class C18(Prop):
                     Layer("FCFG skeletons<=2 prods, all annotations", lambda: fcfg_cases(2, 99), policies=nat),
                     Layer("FCFG skeletons<=3 prods, <=2 annotated", lambda: fcfg_cases(3, 2), policies=nat),
                     Layer("FCFG agreement skeletons (3 variables), <=4 annotated", lambda: agreement_cases(4),
-                          policies=nat + ["1", "2"])]
+                          policies=nat + ["1", "2"]),
+                    Layer("FCFG two-feature agreement family", agreement2_cases, policies=nat + ["1", "2", "3"]),
+                    Layer("FS sequences of three unifications (strided pairs x probes)", lambda: seq_cases(61), policies=nat)]
         return [Layer("FS pairs", pairs, policies=nat + ["1"]),
                 Layer("FCFG skeletons<=2 prods, all annotations", lambda: fcfg_cases(2, 99), policies=nat + ["1"]),
                 Layer("FCFG skeletons<=3 prods, <=4 annotated", lambda: fcfg_cases(3, 4), policies=nat),
                 Layer("FCFG agreement skeletons (3 variables), all annotations", lambda: agreement_cases(99),
-                      policies=nat + ["1", "2"])]
+                      policies=nat + ["1", "2"]),
+                Layer("FCFG two-feature agreement family", agreement2_cases, policies=nat + ["1", "2", "3", "4", "5"]),
+                Layer("FS sequences of three unifications (strided pairs x probes)", lambda: seq_cases(13), policies=nat)]
 
     def reference(self, case):
+        if case[0] == "fcfg2":
+            return {"lang": agreement2_reference(case[1]).lang_upto(3), "plain": False}
+        if case[0] == "fsseq":
+            return {"seq": True}
         if case[0] == "fs":
             sa, sb = GS.spec(fs_pool()[case[1]]), GS.spec(fs_pool()[case[2]])
             a, b = RS.build(sa), RS.build(sb)
@@ -197,31 +292,49 @@ class C18(Prop):
         return {"lang": g.lang_upto(3), "plain": not any(case[3])}
 
     def outcome(self, case, ref):
+        if case[0] == "fsseq":
+            return ("fsseq", case[1] % 7, case[2] % 7)
         if case[0] == "fs":
             return ("fs", ref["clash"], None if ref["clash"] else (len(ref["obs"][0]), len(ref["obs"][2])))
         return ("fcfg", tuple(sorted(ref["lang"]))[:5])
 
     def nontrivial(self, case, ref):
+        if case[0] == "fsseq":
+            return True
         if case[0] == "fs":
             return not ref["clash"] and case[1] != case[2]
         return bool(ref["lang"])
 
     def describe(self, case):
-        if case[0] == "fs":
+        if case[0] == "fcfg2":
+            return {"grammar": agreement2_text(case[1])}
+        if case[0] in ("fs", "fsseq"):
             return {"a": repr(GS.spec(fs_pool()[case[1]])), "b": repr(GS.spec(fs_pool()[case[2]]))}
         return {"grammar": fcfg_text(skeleton(case), case[3])}
 
     script = describe
 
     def thaw(self, case):
-        if case[0] == "fs":
+        if case[0] in ("fs", "fsseq"):
             return tuple(case)
+        if case[0] == "fcfg2":
+            return ("fcfg2", tuple(case[1]))
         return (case[0], case[1], case[2], tuple(case[3]))
 
     def check(self, case, ref, ctx):
         if case[0] == "fs":
             return self._unify(case, ref, ctx)
+        if case[0] == "fsseq":
+            return self._sequences(case, ctx)
         from pyformlang.fcfg import FCFG
+        if case[0] == "fcfg2":
+            text = agreement2_text(case[1])
+            f = ctx.call(FCFG.from_text, text)
+            if ctx.returns(f, "C18.fcfg.from_text", grammar=text):
+                words3 = [("x", "y", "z"), ("x", "y"), ("x", "z", "y"), ("x",), ()]
+                ctx.batch_equal("C18.fcfg.contains", lambda w: f.value.contains(list(w)), words3,
+                                lambda w: w in ref["lang"], stop_at_first=False, grammar=text)
+            return
         sk = skeleton(case)
         text = fcfg_text(sk, case[3])
         f = ctx.call(FCFG.from_text, text)
@@ -243,6 +356,43 @@ class C18(Prop):
                 c = ctx.call(plain.contains, list(w))
                 if c.ok and c.value is not r.value:
                     ctx.fail("C18.fcfg.agrees_with_cfg", grammar=text, word=w, fcfg=r.value, cfg=c.value)
+
+    def _sequences(self, case, ctx):
+        """three unifications in a row on shared structures; after every step the library must raise iff the reference
+        clashes, and at the end all four structures must have the reference observables"""
+        from pyformlang.fcfg.feature_structure import FeatureStructuresNotCompatibleException as Clash
+        sa, sb = GS.spec(fs_pool()[case[1]]), GS.spec(fs_pool()[case[2]])
+        for script in SCRIPTS:
+            for p1 in range(len(PROBES)):
+                for p2 in range(len(PROBES)):
+                    specs = [sa, sb, PROBES[p1], PROBES[p2]]
+                    refs = [RS.build(x) for x in specs]
+                    libs = [lib_build(x) for x in specs]
+                    ok = True
+                    for step, (r, a) in enumerate(script):
+                        try:
+                            RS.unify(refs[r], refs[a])
+                            clash = False
+                        except RS.Clash:
+                            clash = True
+                        res = ctx.call(libs[r].unify, libs[a])
+                        if clash:
+                            if res.ok or not isinstance(res.exc, Clash):
+                                ctx.fail("C18.unify.raises", script=script, step=step, probes=(p1, p2), got=res.describe(),
+                                         want="FeatureStructuresNotCompatibleException")
+                            ok = False
+                            break       # after a clash the structures are unspecified
+                        if not res.ok:
+                            ctx.fail("C18.unify.raises", script=script, step=step, probes=(p1, p2), got=res.describe(), want="success")
+                            ok = False
+                            break
+                    if ok:
+                        for k in range(4):
+                            o = ctx.call(lib_observable, libs[k])
+                            if ctx.returns(o, "C18.unify.observe") and o.value != RS.observable(refs[k]):
+                                ctx.fail("C18.unify.result", script=script, probes=(p1, p2), structure=k,
+                                         got=repr(o.value)[:300], want=repr(RS.observable(refs[k]))[:300])
+                                break
 
     def _unify(self, case, ref, ctx):
         from pyformlang.fcfg.feature_structure import FeatureStructuresNotCompatibleException as Clash
